@@ -2,6 +2,7 @@ package engine
 
 import (
 	"fmt"
+	"reflect"
 	"go/constant"
 	"go/token"
 	"go/types"
@@ -422,10 +423,21 @@ func (fr *frame) step(instr ssa.Instruction) bool {
 		}
 		st, ok := (*p.Slot).(Struct)
 		if !ok {
+			if h, isHost := (*p.Slot).(Host); isHost {
+				// a native struct value held in a local: fields are read through reflection (read-only copy)
+				slot := new(Value)
+				*slot = r.hostField(h, in.Field, in.Type().Underlying().(*types.Pointer).Elem())
+				fr.env[in] = Pointer{Slot: slot}
+				break
+			}
 			panic(fmt.Sprintf("FieldAddr on %T in %s", *p.Slot, fr.fn))
 		}
 		fr.env[in] = Pointer{Slot: &st[in.Field]}
 	case *ssa.Field:
+		if h, isHost := fr.get(in.X).(Host); isHost {
+			fr.env[in] = r.hostField(h, in.Field, in.Type())
+			break
+		}
 		fr.env[in] = CopyVal(fr.get(in.X).(Struct)[in.Field])
 	case *ssa.IndexAddr:
 		fr.env[in] = fr.indexAddr(in)
@@ -1138,4 +1150,16 @@ func lookupMethodSafe(prog *ssa.Program, t types.Type, m *types.Func) (fn *ssa.F
 		}
 	}()
 	return prog.LookupMethod(t, m.Pkg(), m.Name())
+}
+
+// hostField reads an exported field of a native struct value.
+func (r *Run) hostField(h Host, idx int, t types.Type) Value {
+	rv := reflect.ValueOf(h.V)
+	for rv.Kind() == reflect.Ptr {
+		rv = rv.Elem()
+	}
+	if rv.Kind() != reflect.Struct || idx >= rv.NumField() || !rv.Type().Field(idx).IsExported() {
+		panic(unsupported("field %d of native %T", idx, h.V))
+	}
+	return r.Ex.Cfg.Native.FromNative(r.Ex.Prog, rv.Field(idx), t)
 }
